@@ -207,6 +207,10 @@ func run(cs Case) ev.Outcome {
 			classes = append(classes, "wire-ids>65535")
 			nontrivial = true
 		}
+		if cs.Tmpl == "boundary" {
+			classes = append(classes, "wire-ids-around-65536")
+			nontrivial = true
+		}
 	} else {
 		classes = append(classes, "template="+cs.Tmpl)
 		nontrivial = true
